@@ -34,6 +34,10 @@ type Input struct {
 	// multi-step sequence on ONE tree object (built from Tree, after the optional Clone): renders interleaved
 	// with Merge / Insert calls on that same object
 	Steps []Step `json:"steps,omitempty"`
+	// stream "concurrent": Conc renders of one tree object (built by inserting Stacks) while a writer goroutine
+	// keeps inserting into the same object
+	Conc   int           `json:"conc,omitempty"`
+	Stacks []treeu.Stack `json:"stacks,omitempty"`
 }
 
 type Step struct {
@@ -121,6 +125,14 @@ func budgetsFor(n int) []int {
 }
 
 func gen(r *rand.Rand, idx int, tier string) Input {
+	if idx%100 == 41 { // a few concurrent cases: 6 x 50 renders at quick tier
+		in := Input{Kind: "concurrent", Via: "concurrent", Conc: 50, Budgets: []int{1 << 20, lib.Range(r, 2, 40)}}
+		for i := 0; i < 120; i++ {
+			in.Stacks = append(in.Stacks, treeu.Stack{Key: []byte(fmt.Sprintf("main;pkg%d;fn%d;leaf%d", r.Intn(4), r.Intn(8), r.Intn(30))),
+				V: uint64(r.Intn(5) + 1)})
+		}
+		return in
+	}
 	if idx%5 == 3 {
 		return genEndpoint(r)
 	}
@@ -234,7 +246,45 @@ func walk(n *tree.VerifNode, f func(n *tree.VerifNode, depth int), depth int) {
 	}
 }
 
+func runConcurrent(in Input) (res lib.Result) {
+	defer func() {
+		if r := recover(); r != nil {
+			res = lib.Result{Crash: fmt.Sprintf("panic: %v", r)}
+		}
+	}()
+	t := treeu.Build(in.Stacks)
+	before := treeu.Coq(tree.New().VerifDump())
+	stop := make(chan struct{})
+	done := make(chan struct{})
+	go func() { // the writer
+		defer close(done)
+		for i := 0; ; i++ {
+			select {
+			case <-stop:
+				return
+			default:
+			}
+			t.Insert([]byte(fmt.Sprintf("main;writer;w%d", i%50)), 3)
+		}
+	}()
+	var runs []string
+	for k := 0; k < in.Conc; k++ {
+		b := in.Budgets[k%len(in.Budgets)]
+		fs := t.FlamebearerStruct(b)
+		runs = append(runs, coqRun(b, fs, 0))
+	}
+	close(stop)
+	<-done
+	coq := "{| c_tree := " + before + "; c_runs := []; c_seq := []; c_conc := " + lib.List(runs) + " |}"
+	return lib.Result{Coq: coq, NonTrivial: true,
+		Feat: map[string]interface{}{"kind": in.Kind, "via": "concurrent", "conc_renders": len(runs)},
+		Obs:  map[string]interface{}{"runs": len(runs)}}
+}
+
 func run(in Input) (res lib.Result) {
+	if in.Via == "concurrent" {
+		return runConcurrent(in)
+	}
 	if in.Via == "endpoint" {
 		return runEndpoint(in)
 	}
@@ -375,7 +425,7 @@ func run(in Input) (res lib.Result) {
 			repeated++
 		}
 	}
-	coq := "{| c_tree := " + before + "; c_runs := " + lib.List(runs) + "; c_seq := " + lib.List(seq) + " |}"
+	coq := "{| c_tree := " + before + "; c_runs := " + lib.List(runs) + "; c_seq := " + lib.List(seq) + "; c_conc := [] |}"
 	return lib.Result{
 		Coq:        coq,
 		NonTrivial: folded > 0 || ties > 0 || sameBudgetAfterMerge > 0,
